@@ -187,14 +187,14 @@ pub fn run(ctx: &Ctx) -> i32 {
                     let reqs: Vec<Req> = standard_requests(g, start, &mut d, ctx.tier.pick(40, 120), 20);
                     for r0 in reqs {
                         let base_rep = batch.run(&r0);
-                        let key0 = (format!("{:?}", base_rep.status), base_rep.tree.as_ref().map(|t| t.dump()), base_rep.diags.clone(), base_rep.log.iter().filter(|e| matches!(e, lab::Event::Action(..))).count());
+                        let key0 = (format!("{:?}", base_rep.status).split('(').next().unwrap_or("").to_string(), base_rep.tree.as_ref().map(|t| t.dump()), base_rep.diags.clone(), base_rep.log.iter().filter(|e| matches!(e, lab::Event::Action(..))).count());
                         for k in start + 1..start + len {
                             let mut r = r0.clone();
                             r.gi = k;
                             let rep = batch.run(&r);
                             ev.eval();
                             ev.label("behaviour_pairs");
-                            let key = (format!("{:?}", rep.status), rep.tree.as_ref().map(|t| t.dump()), rep.diags.clone(), rep.log.iter().filter(|e| matches!(e, lab::Event::Action(..))).count());
+                            let key = (format!("{:?}", rep.status).split('(').next().unwrap_or("").to_string(), rep.tree.as_ref().map(|t| t.dump()), rep.diags.clone(), rep.log.iter().filter(|e| matches!(e, lab::Event::Action(..))).count());
                             if key != key0 {
                                 vs.push(Violation {
                                     sig: "behaviour-differs".into(),
